@@ -104,7 +104,7 @@ Definition ex_quads : list quad :=
 Example plan_example :
   let pl := make_plan ex_ks 7 9 8 ex_quads in
   pl_labelled pl = [1] /\ pl_lists pl = [(3, [11; 12])] /\
-  plan_ok ex_ks 7 9 8 10 ex_quads [1] 1 2 = true.
+  plan_ok ex_ks 7 9 8 10 ex_quads [1] 1 1 = true.
 Proof. vm_compute. repeat split; reflexivity. Qed.
 
 Print Assumptions Incl.integer_re_incl.
